@@ -192,6 +192,11 @@ def cmd_check(prop, tier, runs=None, wall=None):
             if not res.get("ok"):
                 print("HARNESS-ERROR: corpus file %s cannot be executed:\n%s" % (name, res.get("error")))
                 return 2
+            for k in (res.get("stats") or {}):
+                if k.startswith("known_finding:"):
+                    for f in known.get("findings", []):
+                        if f["id"] == k[len("known_finding:"):] and f["property"] == prop:
+                            known_hit[f["id"]] = f
             for v in res["violations"]:
                 if v["property"] != prop:
                     continue
@@ -238,6 +243,10 @@ def cmd_check(prop, tier, runs=None, wall=None):
         print("note: " + line)
     for n in agg["notes"][:5]:
         print("note: " + n)
+    # every listed finding of this property is announced (met in this batch or not: some need the thorough tier)
+    for f in known.get("findings", []):
+        if f["property"] == prop:
+            known_hit.setdefault(f["id"], f)
     for fid, f in sorted(known_hit.items()):
         print("KNOWN-FINDING: property=%s %s" % (prop, f["what"]))
 
